@@ -24,6 +24,8 @@ pub static SNDBUF_REAL: AtomicUsize = AtomicUsize::new(0);
 pub static ARMED_TID: AtomicI32 = AtomicI32::new(0);
 /// Bit i set => the i-th transmission attempt (sendmsg/send) of the armed thread fails with ENOBUFS.
 pub static ENOBUFS_MASK: AtomicU64 = AtomicU64::new(0);
+/// errno the masked attempts fail with (ENOBUFS unless a case asks for another transient error)
+pub static FAULT_ERRNO: AtomicI32 = AtomicI32::new(libc::ENOBUFS);
 /// Number of transmission attempts of the armed thread so far.
 pub static TX_ATTEMPTS: AtomicU32 = AtomicU32::new(0);
 /// Kill the process (SIGKILL) immediately before the k-th intercepted call
@@ -310,7 +312,13 @@ pub fn arm(tid: c_int, enobufs_mask: u64, die_before: i64) {
     DIE_BEFORE.store(die_before, SeqCst);
     ARMED_TID.store(tid, SeqCst);
 }
+/// Like `arm`, but the masked attempts fail with `errno` instead of ENOBUFS.
+pub fn arm_errno(tid: c_int, mask: u64, errno: c_int) {
+    FAULT_ERRNO.store(errno, SeqCst);
+    arm(tid, mask, -1);
+}
 pub fn disarm() {
+    FAULT_ERRNO.store(libc::ENOBUFS, SeqCst);
     ARMED_TID.store(0, SeqCst);
     ENOBUFS_MASK.store(0, SeqCst);
     DIE_BEFORE.store(-1, SeqCst);
@@ -403,7 +411,7 @@ pub unsafe extern "C" fn sendmsg(fd: c_int, msg: *const libc::msghdr, flags: c_i
     let r = if enobufs_now(tid) {
         ENOBUFS_INJECTED.fetch_add(1, SeqCst);
         log_event(tid, EV_SENDMSG, fd, total, false, nfds, true);
-        set_errno(libc::ENOBUFS);
+        set_errno(FAULT_ERRNO.load(SeqCst));
         -1
     } else {
         let r = libc::syscall(libc::SYS_sendmsg, fd, msg, flags) as ssize_t;
@@ -425,7 +433,7 @@ pub unsafe extern "C" fn send(fd: c_int, buf: *const c_void, len: size_t, flags:
     let r = if enobufs_now(tid) {
         ENOBUFS_INJECTED.fetch_add(1, SeqCst);
         log_event(tid, EV_SEND, fd, len, false, 0, true);
-        set_errno(libc::ENOBUFS);
+        set_errno(FAULT_ERRNO.load(SeqCst));
         -1
     } else {
         let r = libc::syscall(libc::SYS_sendto, fd, buf, len, flags, 0usize, 0usize) as ssize_t;
